@@ -13,7 +13,8 @@ RULE = ("random scenarios on a real cache.Cache + subscribe.Server: 1-3 targets 
 
 
 def run(tier):
-    runs = [("stream", 3000), ("remove", 600), ("idle", 48)] if tier == "quick" else [("stream", 120000), ("remove", 20000), ("idle", 960)]
+    runs = ([("stream", 3000), ("remove", 600), ("idle", 48), ("stall", 300)] if tier == "quick"
+            else [("stream", 120000), ("remove", 20000), ("idle", 960), ("stall", 10000)])
     return fam.run_family(PID, tier, runs, MODELS, RULE, [], shards=16 if tier == "quick" else 48)
 
 
